@@ -78,6 +78,17 @@ func channelCreateBody(server string, port int) []byte {
 	return channelCreateBodyRaw(port, len(n), n)
 }
 
+// channelCreateWithAlts: one resource name and alternate resource names (which the gateway does not use).
+func channelCreateWithAlts(server string, port int, alts ...string) []byte {
+	n := utf16le(server + "\x00")
+	b := cat([]byte{1, byte(len(alts))}, le16(port), le16(3), le16(len(n)), n)
+	for _, a := range alts {
+		an := utf16le(a + "\x00")
+		b = cat(b, le16(len(an)), an)
+	}
+	return b
+}
+
 func dataBody(payload []byte) []byte { return cat(le16(len(payload)), payload) }
 
 func randBytes(r *rand.Rand, n int) []byte {
